@@ -327,6 +327,22 @@ pub fn gen_numeral(rng: &mut Rng) -> String {
 pub fn gen_garbage(rng: &mut Rng) -> String {
     let pieces = ["12500.00 net", "€", "é", "14875.00", " inc VAT ", "٣", "1e5", "0.-777", "e99999999999999999999", "\u{a0}", "approx", "１２３", "-", ".", "7"];
     let target = 20 + rng.below(120) as usize;
+    // two shapes that reach the parser's early error paths with a long, non-ASCII mantissa: an exponent that
+    // fits i128 but not the scale, and a sign directly after the decimal point
+    let shape = rng.below(6);
+    if shape < 2 {
+        let fill = ["1", "２", "é", "€", "7", "٣", " ", "00", "\u{a0}", "5"];
+        let mut s = String::from(if shape == 1 { "0.-" } else { "" });
+        while s.len() < target {
+            let piece: &str = *rng.pick(&fill);
+            s.push_str(piece);
+        }
+        if shape == 0 {
+            let tail: &str = *rng.pick(&["e99999999999999999999", "e-99999999999999999999", "E170141183460469231731687303715884105727"]);
+            s.push_str(tail);
+        }
+        return s;
+    }
     let mut s = String::new();
     while s.len() < target {
         let piece: &str = *rng.pick(&pieces);
